@@ -540,7 +540,8 @@ class _Run:
         msgs = [{"data": base64.b64encode(m["data"]).decode(), "kind": m["rec"]["kind"], "desc": m["rec"]["desc"], "protocol": m["protocol"]}
                 for m in self.sent_all
                 if m["rec"]["kind"] in ("q", "u", "uc") and self.resolvable(self.units_of(m["rec"]), "L")
-                and m["rec"]["desc"].get("magtype", "int") in ("int", "float")][:12]
+                and m["rec"]["desc"].get("magtype", "int") in ("int", "float")
+                and all(isinstance(e, int) and not isinstance(e, bool) for _, e in m["rec"]["desc"]["units"])][:12]
         if not msgs:
             return
         code = r"""
